@@ -92,7 +92,24 @@ type ZvWrap struct {
 	Tail   string `json:"tail"`
 }
 
+// ZvPair: a struct the library can hand back (pointer, interface, string, bytes).
+type ZvPair struct {
+	A    *ZvLeaf `json:"a"`
+	B    ZvAny   `json:"b"`
+	L    string  `json:"l"`
+	Data []byte  `json:"data"`
+}
+
+// ZvEmb: an embedded struct and nothing that could be nil.
+type ZvEmb struct {
+	ZvBase
+	X string `json:"x"`
+	Y int    `json:"y"`
+}
+
 func (p *ZvLeaf) ZvTag() string { return "zvleaf" }
+func (p *ZvPair) ZvTag() string { return "zvpair" }
+func (p *ZvEmb) ZvTag() string  { return "zvemb" }
 func (p *ZvOdd) ZvTag() string  { return "zvodd" }
 func (p *ZvBox) ZvTag() string  { return "zvbox" }
 func (p *ZvNode) ZvTag() string { return "zvnode" }
@@ -110,6 +127,8 @@ func (h *ZvHost) EchoOdd(x *ZvOdd) *ZvOdd    { giLastArg = x; return x }
 func (h *ZvHost) EchoBox(x *ZvBox) *ZvBox    { giLastArg = x; return x }
 func (h *ZvHost) EchoNode(x *ZvNode) *ZvNode { giLastArg = x; return x }
 func (h *ZvHost) EchoWrap(x *ZvWrap) *ZvWrap { giLastArg = x; return x }
+func (h *ZvHost) EchoPair(x *ZvPair) *ZvPair { giLastArg = x; return x }
+func (h *ZvHost) EchoEmb(x *ZvEmb) *ZvEmb    { giLastArg = x; return x }
 
 // giLastArg is the Go value the last Echo method received (the result of the
 // implicit conversion of the method argument).
@@ -128,6 +147,8 @@ var giTypes = []giTypeInfo{
 	{"zvbox", "ZvBox", func() any { return &ZvBox{} }, "EchoBox"},
 	{"zvnode", "ZvNode", func() any { return &ZvNode{} }, "EchoNode"},
 	{"zvwrap", "ZvWrap", func() any { return &ZvWrap{} }, "EchoWrap"},
+	{"zvpair", "ZvPair", func() any { return &ZvPair{} }, "EchoPair"},
+	{"zvemb", "ZvEmb", func() any { return &ZvEmb{} }, "EchoEmb"},
 	{"zvhost", "ZvHost", func() any { return &ZvHost{} }, ""},
 }
 
